@@ -192,9 +192,33 @@ class RespModel:
         self.eq = repo.fn("MITMProxyEventManager._handle_eq_event")
         tree = fn.tree
         hcs = find_calls(tree, "_handle_eq_event", into_defs=False)
+        self.isolated_by_wrapper = False
+        ev_arg = None
+        if not hcs:
+            # the handler may be reached through a small wrapper that contains its failures
+            # (`try: return self._handle_eq_event(..) except Exception: ...; return False`)
+            from .common import class_methods_reachable
+            cands = [(d, False) for d in walk(tree, into_defs=True) if isinstance(d, ast.FunctionDef) and d is not tree]
+            cands += [(g.node, True) for g in class_methods_reachable(repo, fn.fi, depth=2) if g != fn.fi]
+            for d, is_method in cands:
+                evp = self._isolating_wrapper(d, is_method)
+                if evp is None:
+                    continue
+                for c in calls(tree):
+                    direct = isinstance(c.func, ast.Name) and c.func.id == d.name and not is_method
+                    via_self = isinstance(c.func, ast.Attribute) and c.func.attr == d.name and is_method \
+                        and isinstance(c.func.value, ast.Name) and c.func.value.id == fn.params[0]
+                    if direct or via_self:
+                        params = [a.arg for a in d.args.posonlyargs + d.args.args][1 if is_method else 0:]
+                        bound = dict(zip(params, c.args))
+                        bound.update({k.arg: k.value for k in c.keywords if k.arg})
+                        hcs.append(c)
+                        ev_arg = bound.get(evp)
+                        self.isolated_by_wrapper = True
         ctx.require(len(hcs) == 1, f"_handle_response: expected one _handle_eq_event call site, found {len(hcs)}")
         self.hc = hc = hcs[0]
-        ev_arg = bind_call(self.eq, hc).get("event")
+        if not self.isolated_by_wrapper:
+            ev_arg = bind_call(self.eq, hc).get("event")
         self.kind = None
         self.loop = self.comp = None
         self.append = None
@@ -240,6 +264,37 @@ class RespModel:
             if s.kind == "assign" and s.path.endswith(".response.content") and isinstance(v_, ast.Call) \
                     and call_attr(v_) == "format_xml" and v_.args and ap(v_.args[0]) == self.parsed:
                 self.formats.append(s)
+
+    def _isolating_wrapper(self, d, is_method) -> Optional[str]:
+        """d is `def w(.., ev, ..): try: return <..>._handle_eq_event(.., ev) except Exception: <no raise>; return <falsy>`:
+        name of the parameter that carries the event, else None."""
+        body = [st for st in d.body if not (isinstance(st, ast.Expr) and isinstance(st.value, ast.Constant))]
+        if len(body) not in (1, 2) or not isinstance(body[0], ast.Try):
+            return None
+        t = body[0]
+        inner = [c for st in t.body for c in ast.walk(st) if isinstance(c, ast.Call) and call_attr(c) == "_handle_eq_event"]
+        if len(inner) != 1 or not t.handlers:
+            return None
+        catch_all = False
+        for h in t.handlers:
+            names = {(ap(e) or "").split(".")[-1] for e in (h.type.elts if isinstance(h.type, ast.Tuple) else [h.type])} \
+                if h.type is not None else {"BaseException"}
+            if any(isinstance(x, ast.Raise) for x in walk(h)):
+                return None
+            catch_all = catch_all or bool(names & {"Exception", "BaseException"})
+        if not catch_all:
+            return None
+        for r in [x for x in walk(d) if isinstance(x, ast.Return)]:
+            v = r.value
+            if v is inner[0] or v is None or (isinstance(v, ast.Constant) and not v.value):
+                continue
+            if isinstance(v, ast.Name) and any(isinstance(st, ast.Assign) and st.value is inner[0] and ap(st.targets[0]) == v.id
+                                               for st in ast.walk(t) if isinstance(st, ast.Assign)):
+                continue
+            return None
+        evx = bind_call(self.eq, inner[0]).get("event")
+        params = [a.arg for a in d.args.posonlyargs + d.args.args]
+        return evx.id if isinstance(evx, ast.Name) and evx.id in params else None
 
     def anchor_nodes(self):
         return self.fn.cfg.nodes_for(self.anchor) if self.kind == "loop" else self.fn.nodes(self.anchor)
@@ -334,7 +389,8 @@ def r1(ctx, m: RespModel):
             kept = any(call_attr(c) == "append" and c.args and ap(c.args[0]) == m.var for c in calls(iso)) or any(
                 s_.kind == "assign" and s_.path in gov and isinstance(s_.value, ast.Constant) and not s_.value.value
                 for s_ in stores(iso, into_defs=False))
-        ctx.ob("C17.R1", f"{K}: a failure while handling one event stays with that event", iso is not None and kept,
+        ctx.ob("C17.R1", f"{K}: a failure while handling one event stays with that event",
+               m.isolated_by_wrapper or (iso is not None and kept),
                fn.w(m.hc), "_handle_eq_event is not called inside a per-event try that catches Exception and keeps the "
                            "event: one event the proxy cannot decode aborts the whole response (later announcements "
                            "unregistered, swallowed events delivered, injected events and the replay cache skipped)")
@@ -348,8 +404,9 @@ def r1(ctx, m: RespModel):
                    f"append is governed by {[(norm(e), p) for e, p in fs]}: events are lost (or swallowed ones kept)")
     else:
         g = m.comp.generators[0]
-        ctx.ob("C17.R1", f"{K}: a failure while handling one event stays with that event", False, fn.w(m.hc),
-               "a comprehension cannot contain the per-event try: one undecodable event aborts the whole response")
+        ctx.ob("C17.R1", f"{K}: a failure while handling one event stays with that event", m.isolated_by_wrapper, fn.w(m.hc),
+               "a comprehension cannot contain the per-event try (and the handler is not called through a wrapper that "
+               "contains its failures): one undecodable event aborts the whole response")
         ctx.ob("C17.R1", f"{K}: comprehension yields the event itself", ap(m.comp.elt) == m.var and isinstance(m.comp, ast.ListComp),
                fn.w(m.comp), f"element expression {norm(m.comp.elt)}")
         fs = [f for i in g.ifs for f in atoms(i, True)]
